@@ -23,11 +23,13 @@ package l1
 //@ func (*Client).applyStateUpdate
 //@   props C17
 //@   arith int
+//@   logged
 //@   requires c != nil && stateUpdate != nil && c.nonFinalisedLogs != nil
 //@   modifies maps
 //@   loop 1: invariant vis: forall k uint64 :: visited(k) ==> (in(c.nonFinalisedLogs, k) <==> (old(in(c.nonFinalisedLogs, k)) && k < stateUpdate.L1RefHeight))
 //@   loop 1: invariant unvis: forall k uint64 :: !visited(k) ==> (in(c.nonFinalisedLogs, k) <==> old(in(c.nonFinalisedLogs, k)))
 //@   loop 1: invariant vals: forall k uint64 :: in(c.nonFinalisedLogs, k) ==> c.nonFinalisedLogs[k] == old(c.nonFinalisedLogs[k])
+//@   ensures keeps_nonnil: (forall k uint64 :: old(in(c.nonFinalisedLogs, k)) ==> old(c.nonFinalisedLogs[k]) != nil) ==> (forall k uint64 :: in(c.nonFinalisedLogs, k) ==> c.nonFinalisedLogs[k] != nil)
 //@   ensures removed: stateUpdate.Removed ==> (forall k uint64 :: in(c.nonFinalisedLogs, k) <==> (old(in(c.nonFinalisedLogs, k)) && k < stateUpdate.L1RefHeight))
 //@   ensures removed_vals: stateUpdate.Removed ==> (forall k uint64 :: in(c.nonFinalisedLogs, k) ==> c.nonFinalisedLogs[k] == old(c.nonFinalisedLogs[k]))
 //@   ensures added: !stateUpdate.Removed ==> in(c.nonFinalisedLogs, stateUpdate.L1RefHeight) && c.nonFinalisedLogs[stateUpdate.L1RefHeight] == stateUpdate
@@ -40,7 +42,7 @@ package l1
 //@   arith int
 //@   requires c != nil && c.nonFinalisedLogs != nil && c.l2Chain != nil
 //@   requires nonnil: forall k uint64 :: in(c.nonFinalisedLogs, k) ==> c.nonFinalisedLogs[k] != nil
-//@   modifies *
+//@   modifies maps
 //@   assigns l1HeadCalls, l1HeadBlock
 //@   loop 1: invariant vis: forall k uint64 :: visited(k) ==> (in(c.nonFinalisedLogs, k) <==> (old(in(c.nonFinalisedLogs, k)) && k > finalisedHeight))
 //@   loop 1: invariant unvis: forall k uint64 :: !visited(k) ==> (in(c.nonFinalisedLogs, k) <==> old(in(c.nonFinalisedLogs, k)))
@@ -51,4 +53,29 @@ package l1
 //@   loop 1: invariant calls: l1HeadCalls == old(l1HeadCalls)
 //@   ensures nocall_when_none: (forall k uint64 :: !old(in(c.nonFinalisedLogs, k))) ==> l1HeadCalls == old(l1HeadCalls)
 //@   ensures atmostonce: l1HeadCalls == old(l1HeadCalls) || l1HeadCalls == old(l1HeadCalls) + 1
+//@   ensures keeps_nonnil: forall k uint64 :: in(c.nonFinalisedLogs, k) ==> c.nonFinalisedLogs[k] != nil
 //@   ensures chosen: l1HeadCalls == old(l1HeadCalls) + 1 ==> (exists k uint64 :: old(in(c.nonFinalisedLogs, k)) && l1HeadBlock == old(c.nonFinalisedLogs[k].L2BlockNumber) && (forall j uint64 :: old(in(c.nonFinalisedLogs, j)) && j > k ==> in(c.nonFinalisedLogs, j)))
+
+// ---- the receive loop: nothing the L1 node delivered is dropped -------------------------------
+//@ func (*Client).subscribeToUpdates
+//@   trusted
+//@ extern func github.com/NethermindEth/juno/l1.Subscription.Err
+//@ extern func github.com/NethermindEth/juno/l1.Subscription.Unsubscribe
+//@ extern func time.NewTicker
+//@   ensures result != nil
+//@ extern func time.(*Ticker).Stop
+//@ extern func context.Context.Done
+
+// Every value received from the update channel is handed to applyStateUpdate before the
+// next receive: receives and applications stay in lock step on every path through the loop.
+//@ func (*Client).receiveL1StateUpdates
+//@   props C17
+//@   arith int
+//@   requires c != nil && c.nonFinalisedLogs != nil && c.l2Chain != nil && updateCh != nil
+//@   requires nonnil: forall k uint64 :: in(c.nonFinalisedLogs, k) ==> c.nonFinalisedLogs[k] != nil
+//@   recvfrom updateCh: value != nil
+//@   modifies maps
+//@   assigns l1HeadCalls, l1HeadBlock, calls_applyStateUpdate, arg_applyStateUpdate_stateUpdate
+//@   loop 1: invariant nonnil: forall k uint64 :: in(c.nonFinalisedLogs, k) ==> c.nonFinalisedLogs[k] != nil
+//@   loop 1: invariant lockstep: received(updateCh) - old(received(updateCh)) == calls_applyStateUpdate - old(calls_applyStateUpdate)
+//@   ensures lockstep: received(updateCh) - old(received(updateCh)) == calls_applyStateUpdate - old(calls_applyStateUpdate)
